@@ -90,6 +90,70 @@ def writes_in(fn: FunctionInfo) -> List[Tuple[ast.AST, str, str, ast.AST]]:
     return out
 
 
+def _statement_lists(fn: FunctionInfo):
+    out = []
+
+    def rec(body):
+        out.append(body)
+        for st in body:
+            if isinstance(st, (ast.FunctionDef, ast.AsyncFunctionDef, ast.ClassDef)):
+                continue
+            for f_ in ("body", "orelse", "finalbody"):
+                b = getattr(st, f_, None)
+                if isinstance(b, list) and b and isinstance(b[0], ast.stmt):
+                    rec(b)
+            for h in getattr(st, "handlers", []) or []:
+                rec(h.body)
+    rec(fn.body())
+    return out
+
+
+def _shape_of_hit(read: ast.Assign, e: ast.expr):
+    """Shape of the hit-path return relative to the cached value V: 'V', ('comp', i), ('tuple', [...]), ('const', c)."""
+    env: Dict[str, object] = {}
+    t = read.targets[0]
+    if isinstance(t, ast.Name):
+        env[t.id] = "V"
+    elif isinstance(t, (ast.Tuple, ast.List)):
+        for i, el in enumerate(t.elts):
+            if isinstance(el, ast.Name):
+                env[el.id] = ("comp", i)
+        env["#arity"] = len(t.elts)
+
+    def ev(x):
+        if isinstance(x, ast.Name):
+            return env.get(x.id)
+        if isinstance(x, ast.Constant):
+            return ("const", x.value)
+        if isinstance(x, ast.Tuple):
+            items = [ev(y) for y in x.elts]
+            if any(i is None for i in items):
+                return None
+            if items == [("comp", k) for k in range(len(items))] and env.get("#arity") == len(items):
+                return "V"
+            return ("tuple", items)
+        if isinstance(x, ast.Subscript) and isinstance(x.slice, ast.Constant) and ev(x.value) == "V":
+            return ("comp", x.slice.value)
+        return None
+    return ev(e)
+
+
+def _shape_of_miss(e: ast.expr, writer_names: Set[str]):
+    def ev(x):
+        if isinstance(x, ast.Call) and isinstance(x.func, ast.Attribute) and isinstance(x.func.value, ast.Name) \
+                and x.func.value.id == "self" and x.func.attr in writer_names:
+            return "V"
+        if isinstance(x, ast.Constant):
+            return ("const", x.value)
+        if isinstance(x, ast.Subscript) and isinstance(x.slice, ast.Constant) and ev(x.value) == "V":
+            return ("comp", x.slice.value)
+        if isinstance(x, ast.Tuple):
+            items = [ev(y) for y in x.elts]
+            return None if any(i is None for i in items) else ("tuple", items)
+        return None
+    return ev(e)
+
+
 def run(idx: ProgramIndex, rep: Report, tier: str, selftest: bool = True):
     rep.extra["explanation"] = (
         "Effect analysis: every store to an attribute of self outside __init__ and every write into a _memoize_cache "
@@ -110,6 +174,7 @@ def run(idx: ProgramIndex, rep: Report, tier: str, selftest: bool = True):
     rep.rule("C12.W", "every history-channel write is write-once, keyed, or targets a new object", floor=25)
     rep.rule("C12.K", "ignore_args caches only on methods whose arguments cannot change the result", floor=25)
     rep.rule("C12.D", "denotation attributes are never re-assigned outside __init__", floor=30)
+    rep.rule("C12.H", "a cache-hit shortcut returns what the miss path returns", floor=0)
 
     base = idx.operator_base()
     channels_seen: Dict[str, List[str]] = {}
@@ -447,6 +512,57 @@ def run(idx: ProgramIndex, rep: Report, tier: str, selftest: bool = True):
                     for k in d.keywords:
                         if k.arg == "name" and isinstance(k.value, ast.Constant):
                             writers.setdefault(k.value.value, []).append(f"@cached {c.name}.{mname}")
+    # ---------------------------------------------------------------- H
+    # a cache-hit shortcut (try: V = pop/get_from_cache(self, NAME, **K); return E_hit / except CachingError: pass /
+    # return E_miss) must return what the miss path returns - otherwise the answer depends on whether an earlier query
+    # populated the cache.  A reader whose NAME has no writer anywhere is dormant (vacuously fine, listed).
+    cached_methods: Dict[str, List[FunctionInfo]] = {}
+    for c in idx.classes.values():
+        for mname, fn in c.methods.items():
+            for d in fn.decorators:
+                f_ = d.func if isinstance(d, ast.Call) else d
+                if (dotted(f_) or "").split(".")[-1] != "cached":
+                    continue
+                nm = mname
+                if isinstance(d, ast.Call):
+                    for k in d.keywords:
+                        if k.arg == "name" and isinstance(k.value, ast.Constant):
+                            nm = k.value.value
+                cached_methods.setdefault(nm, []).append(fn)
+    n_h = 0
+    for fn in idx.functions:
+        for body in _statement_lists(fn):
+            for i, st in enumerate(body):
+                if not (isinstance(st, ast.Try) and any("CachingError" in norm(h.type) for h in st.handlers if h.type is not None)):
+                    continue
+                read = None
+                for x in st.body:
+                    if isinstance(x, ast.Assign) and isinstance(x.value, ast.Call) and (dotted(x.value.func) or "").split(".")[-1] in (
+                            "pop_from_cache", "get_from_cache") and len(x.value.args) > 1 and isinstance(x.value.args[1], ast.Constant):
+                        read = x
+                hit = next((x for x in st.body if isinstance(x, ast.Return) and x.value is not None), None)
+                miss = next((x for x in body[i + 1:] if isinstance(x, ast.Return) and x.value is not None), None)
+                if read is None or hit is None or miss is None:
+                    continue
+                n_h += 1
+                name = read.value.args[1].value
+                sample = {"function": fname(fn), "cache_name": name, "hit_returns": short(hit.value, 40), "miss_returns": short(miss.value, 50)}
+                ws = cached_methods.get(name, [])
+                explicit = [w for w in writers.get(name, []) if not w.startswith("@cached")]
+                if not ws and not explicit:
+                    rep.ok("C12.H", {**sample, "status": "dormant: no writer for this cache name anywhere in the package"})
+                    continue
+                hv = _shape_of_hit(read, hit.value)
+                mv = _shape_of_miss(miss.value, {w.name for w in ws})
+                if hv is not None and mv is not None and hv == mv:
+                    rep.ok("C12.H", {**sample, "status": "hit path and miss path return the same components"})
+                else:
+                    rep.bad("C12.H", Finding(PROP, "C12.H", fname(fn), f"cache '{name}': hit returns {short(hit.value, 40)}, miss returns {short(miss.value, 50)}",
+                                             f"{fname(fn)}: when the cache entry '{name}' exists (written by "
+                                             f"{', '.join(sorted(w.qualname.split('.')[-2] + '.' + w.name for w in ws) + explicit)}) the method returns "
+                                             f"`{short(hit.value, 40)}`, otherwise `{short(miss.value, 50)}` - these differ, so the answer "
+                                             "depends on which queries ran before (and pop_from_cache consumes the entry)", fn.loc(hit)), sample)
+    rep.analysed["cache_hit_shortcuts"] = n_h
     rep.analysed["cache_name_writers"] = {k: sorted(set(v))[:8] for k, v in sorted(writers.items())}
     rep.analysed["cache_name_readers"] = {k: sorted(set(v))[:8] for k, v in sorted(readers.items())}
     rep.analysed["cache_names_read_but_never_written"] = sorted(set(readers) - set(writers))
